@@ -106,6 +106,7 @@ package expr
 //@   requires d != nil && d.uts != nil && d.ats != nil
 //@   ensures memo: d.uts == old(d.uts) && d.ats == old(d.ats)
 //@   ensures memo.grows: forall a *AttributeExpr :: old(inMap(d.ats, a)) ==> inMap(d.ats, a)
+//@   ensures memo.only.copies: forall a *AttributeExpr :: inMap(d.ats, a) && !old(inMap(d.ats, a)) ==> fresh(a)
 //@   modifies* mapOf(d.uts), mapOf(d.ats), cell(GeneratedResultTypes), whole(elems(load(GeneratedResultTypes))), utAttr
 //@   frameprop C13
 //   -- the body is too entangled for a full proof (its contract is ASSUMED); what is checked on the real body is the
@@ -141,8 +142,21 @@ package expr
 //@   ensures* same.scalars: isNew ==> result.Description == old(att.Description) && result.finalized == old(att.finalized)
 //@   ensures memo: d.uts == old(d.uts) && d.ats == old(d.ats)
 //@   ensures memo.grows: forall a *AttributeExpr :: old(inMap(d.ats, a)) ==> inMap(d.ats, a)
+//@   ensures memo.only.copies: forall a *AttributeExpr :: inMap(d.ats, a) && !old(inMap(d.ats, a)) ==> fresh(a)
 //@   modifies* mapOf(d.uts), mapOf(d.ats), cell(GeneratedResultTypes), whole(elems(load(GeneratedResultTypes))), utAttr
 //@   frameprop C13
+
+// DupAtt: the exported entry point. The copy is a new node, its Bases slice is a new slice of the same
+// length (the original's slice is not shared). (Its frame is that of DupAttribute and DupType, stated there.)
+//@ func DupAtt
+//@   params att
+//@   locals duppedBases dupper
+//@   property C13
+//@   requires att != nil
+//@   ensures* fresh.node: result != nil && fresh(result) && result != att
+//@   ensures* bases.not.shared: len(result.Bases) == len(old(att.Bases)) && (len(old(att.Bases)) > 0 ==> fresh(result.Bases))
+//@   loop 1 invariant made: len(duppedBases) == len(old(att.Bases)) && (len(old(att.Bases)) > 0 ==> fresh(duppedBases)) && dupper != nil && fresh(dupper) && dupper.uts != nil && dupper.ats != nil && fresh(dupper.ats) && fresh(dupper.uts)
+//@   loop 1 invariant memo.only.copies: forall a *AttributeExpr :: inMap(dupper.ats, a) ==> sinceEntry(a)
 
 // ---- security requirement inheritance (C06) -------------------------------------------------
 
